@@ -532,7 +532,55 @@ class C02Executor(Executor):
             return [(st, VExt("StrSet", EMPTYSET))]
         return super().construct(st, t, args, kwargs, node)
 
+    @staticmethod
+    def _fill(fmt, pieces, pattern):
+        """fmt with every occurrence of a plain placeholder replaced by the next piece, or None when fmt has anything else."""
+        import re
+        parts = re.split(pattern, fmt)
+        if len(parts) != len(pieces) + 1 or any("%" in x or "{" in x or "}" in x for x in parts):
+            return None
+        out = []
+        for i, x in enumerate(parts):
+            out.append(lit(x))
+            if i < len(pieces):
+                out.append(pieces[i])
+        return T._concat([y for t in out for y in T._flat(t)])
+
+    def to_str(self, st, v, formatted=False):
+        r = super().to_str(st, v, formatted)
+        if not (isinstance(v, (VStr, VInt)) and not formatted):
+            st.assume(ABSTRACTED)            # an opaque rendering (format spec, repr, unknown value): no counter-model from here on
+        return r
+
+    def str_method(self, st, s_, name, args, kwargs, node):
+        if name == "format" and not kwargs and s_.const() is not None and all(isinstance(a, VStr) for a in args):
+            fmt = s_.const()
+            import re
+            auto = self._fill(fmt, [a.t for a in args], r"\{\}")
+            if auto is None and re.fullmatch(r"(?:[^{}]|\{\d+\})*", fmt):
+                idx = [int(i) for i in re.findall(r"\{(\d+)\}", fmt)]
+                if all(i < len(args) for i in idx):
+                    auto = self._fill(fmt, [args[i].t for i in idx], r"\{\d+\}")
+            if auto is not None:
+                return [(st, VStr(auto))]
+        if name in ("format", "format_map"):
+            st.assume(ABSTRACTED)
+        res = super().str_method(st, s_, name, args, kwargs, node)
+        if name != "join":
+            for (s2, v) in res:
+                # a string method the models do not follow returns a fresh symbol: an abstraction, no counter-models downstream
+                if (isinstance(v, VStr) and z3.is_const(v.t) and v.t.decl().kind() == z3.Z3_OP_UNINTERPRETED and "!" in v.t.decl().name()) or isinstance(v, VUnk):
+                    s2.assume(ABSTRACTED)
+        return res
+
     def binop(self, st, op, a, b, node, inplace=False):
+        if op == "Mod" and isinstance(a, VStr):
+            items = b.items if isinstance(b, VTuple) else [b]
+            if a.const() is not None and all(isinstance(x, VStr) for x in items):
+                r = self._fill(a.const(), [x.t for x in items], r"%s")
+                if r is not None:
+                    return [(st, VStr(r))]
+            st.assume(ABSTRACTED)            # %-formatting the model does not follow: opaque text
         if op == "Mult" and isinstance(a, VStr) and isinstance(b, VInt) and b.const() is None:
             n = ops.int_term(b)
             return [(st, VStr(z3.If(n > 0, T.REP(a.t, n), lit(""))))]
